@@ -395,6 +395,11 @@ class SymbolCall:
     def __init__(self, args, kw):
         self.args, self.kw = list(args), dict(kw)
 
+    def pvc_subst(self, pairs):
+        from pvc.sym import subst
+
+        return SymbolCall(subst(self.args, pairs), {k: subst(v, pairs) for k, v in self.kw.items()})
+
 
 class PlainTemporaries:
     pass
